@@ -43,6 +43,8 @@ func vfRunCase(c vfReplayCase) (outcome string, detail string) {
 		return "error", "no harness " + c.Harness
 	}
 	vfSetModel(c.Model)
+	vfFSReset()
+	defer vfFSReset()
 	h()
 	if c.Obs != nil {
 		if len(c.Obs) != len(vfObsLog) {
